@@ -2078,6 +2078,9 @@ func (g *gen) failingPiece() {
 			{"if-condition", "if (%s) { return 1 } else { return 2 }"}, {"else-if-condition", "if (false) { return 1 } else if (%s) { return 2 }"},
 		}
 		fr := frames[g.intn("failframekind", 0, len(frames)-1)]
+		if strings.HasPrefix(k.body, "[") && strings.Contains(fr.name, "if-condition") {
+			fr = frames[0] // the PARSER rejects an array literal as a condition: that would be a syntax error, not a failing operation
+		}
 		k.kind += "@" + fr.name
 		k.body = fmt.Sprintf(fr.f, k.body)
 		g.feat("failing_operation_in_tolerant_frame")
